@@ -41,4 +41,461 @@ Section PROOFS.
   Proof.
     induction bs as [|b r IH]; cbn; [reflexivity|]. now rewrite IH, filter_app.
   Qed.
+
+  (* ---------- stages that rewrite every entry and forward the batch ---------- *)
+  Fixpoint mapM (f : entry -> res entry) (l : list entry) : res (list entry) :=
+    match l with
+    | [] => Ok []
+    | e :: r => match f e with
+                | Fail k => Fail k
+                | Ok e' => match mapM f r with Fail k => Fail k | Ok r' => Ok (e' :: r') end
+                end
+    end.
+
+  Lemma fold_map_ops (f : entry -> res entry) : forall b,
+    fold_entries V (map_ops V f) tt b = match mapM f b with Ok b' => Ok (tt, b') | Fail k => Fail k end.
+  Proof.
+    induction b as [|e r IH]; cbn [fold_entries mapM]; [reflexivity|].
+    cbn [on_entry map_ops]. destruct (f e) as [e'|k]; [|reflexivity].
+    rewrite IH. destruct (mapM f r); reflexivity.
+  Qed.
+
+  Lemma mapM_total (f : entry -> res entry) (g : entry -> entry) :
+    (forall e, f e = Ok (g e)) -> forall l, mapM f l = Ok (map g l).
+  Proof.
+    intros H. induction l as [|e r IH]; cbn [mapM map]; [reflexivity|]. now rewrite H, IH.
+  Qed.
+
+  Lemma wrap_map_total (f : entry -> res entry) (g : entry -> entry) :
+    (forall e, f e = Ok (g e)) -> forall bs, wrap (map_ops V f) tt bs = map (map g) bs.
+  Proof.
+    intros H. induction bs as [|b r IH]; cbn [wrap map]; [reflexivity|].
+    rewrite fold_map_ops, (mapM_total f g H). cbn [on_slice map_ops app]. now rewrite IH.
+  Qed.
+
+  Lemma concat_map_map (g : entry -> entry) (bs : batches) :
+    List.concat (map (map g) bs) = map g (List.concat bs).
+  Proof. induction bs as [|b r IH]; cbn; [reflexivity|]. now rewrite IH, map_app. Qed.
+
+  Lemma mapM_app (f : entry -> res entry) : forall a b,
+    mapM f (a ++ b) = match mapM f a with
+                      | Fail k => Fail k
+                      | Ok a' => match mapM f b with Fail k => Fail k | Ok b' => Ok (a' ++ b') end
+                      end.
+  Proof.
+    induction a as [|e r IH]; intros b; cbn [mapM app].
+    - destruct (mapM f b); reflexivity.
+    - destruct (f e) as [e'|k]; [|reflexivity]. rewrite IH.
+      destruct (mapM f r) as [r'|k]; [|reflexivity]. destruct (mapM f b); reflexivity.
+  Qed.
+
+  (* the general shape of the output of a rewriting stage: either every entry was rewritten, or the
+     batches before the failing one were forwarded and one error entry ends the stream *)
+  Lemma wrap_map_shape (f : entry -> res entry) : forall bs,
+    match mapM f (List.concat bs) with
+    | Ok l' => List.concat (wrap (map_ops V f) tt bs) = l'
+    | Fail k => exists pre, wrap (map_ops V f) tt bs = pre ++ [[fail_entry V v0 panic_kills k]] /\
+                            exists a b, List.concat bs = a ++ b /\ mapM f a = Ok (List.concat pre)
+    end.
+  Proof.
+    induction bs as [|b r IH]; cbn [wrap List.concat mapM].
+    - reflexivity.
+    - rewrite fold_map_ops, mapM_app. destruct (mapM f b) as [b'|k] eqn:Hb.
+      + cbn [on_slice map_ops]. destruct (mapM f (List.concat r)) as [r'|k] eqn:Hr.
+        * cbn [app List.concat]. now rewrite IH.
+        * destruct IH as [pre [Hw [a [c [Hc Ha]]]]]. exists (b' :: pre). split.
+          { cbn [app]. now rewrite Hw. }
+          exists (b ++ a), c. split; [now rewrite Hc, app_assoc|].
+          rewrite mapM_app, Hb, Ha. reflexivity.
+      + exists []. split; [reflexivity|]. exists [], (b ++ List.concat r). split; reflexivity.
+  Qed.
+
+  (* ---------- line_format ---------- *)
+  Definition lf_one (id : N) (e : entry) : list entry :=
+    match tmpl id (lset match e_lbl V e with None => [] | Some m => m end entry_key (e_msg V e)) with
+    | Some s => [set_msg V e s]
+    | None => []
+    end.
+
+  Lemma fold_line_format id : forall b acc,
+    exists b', fold_entries V (line_format_ops V tmpl id) acc b = Ok (acc ++ flat_map (lf_one id) b, b').
+  Proof.
+    induction b as [|e r IH]; intros acc; cbn [fold_entries flat_map].
+    - exists []. now rewrite app_nil_r.
+    - cbn [on_entry line_format_ops]. unfold lf_one at 1.
+      destruct (tmpl id _) as [s|].
+      + destruct (IH (acc ++ [set_msg V e s])) as [b' Hb]. rewrite Hb. eexists. cbn [app]. now rewrite <- app_assoc.
+      + destruct (IH acc) as [b' Hb]. rewrite Hb. eexists. reflexivity.
+  Qed.
+
+  Lemma wrap_line_format id : forall bs,
+    wrap (line_format_ops V tmpl id) [] bs = map (flat_map (lf_one id)) bs.
+  Proof.
+    induction bs as [|b r IH]; cbn [wrap map]; [reflexivity|].
+    destruct (fold_line_format id b []) as [b' Hb]. rewrite Hb. cbn [on_slice line_format_ops app]. now rewrite IH.
+  Qed.
+
+  Lemma concat_map_flat_map (g : entry -> list entry) (bs : batches) :
+    List.concat (map (flat_map g) bs) = flat_map g (List.concat bs).
+  Proof. induction bs as [|b r IH]; cbn; [reflexivity|]. now rewrite IH, flat_map_app. Qed.
+
+  (* ---------- limit ---------- *)
+  Lemma fold_limit L : forall b s, fold_entries V (limit_ops V L) s b = Ok (s, b).
+  Proof.
+    induction b as [|e r IH]; intros s; cbn [fold_entries]; [reflexivity|].
+    cbn [on_entry limit_ops]. now rewrite IH.
+  Qed.
+
+  Lemma wrap_limit_zero : forall bs s, wrap (limit_ops V 0) s bs = bs.
+  Proof.
+    induction bs as [|b r IH]; intros s; cbn [wrap]; [reflexivity|].
+    rewrite fold_limit. cbn [on_slice limit_ops]. cbn. now rewrite IH.
+  Qed.
+
+  Lemma wrap_limit_done L : 0 < L -> forall bs, List.concat (wrap (limit_ops V L) L bs) = [].
+  Proof.
+    intros HL. induction bs as [|b r IH]; cbn [wrap]; [reflexivity|].
+    rewrite fold_limit. cbn [on_slice limit_ops].
+    destruct (Z.eqb_spec L 0) as [->|_]; [lia|]. rewrite Z.leb_refl. cbn [app]. exact IH.
+  Qed.
+
+  Lemma wrap_limit_pos L : 0 < L -> forall bs s, 0 <= s <= L ->
+    List.concat (wrap (limit_ops V L) s bs) = firstn (Z.to_nat (L - s)) (List.concat bs).
+  Proof.
+    intros HL. induction bs as [|b r IH]; intros s Hs; cbn [wrap List.concat].
+    - now rewrite firstn_nil.
+    - rewrite fold_limit. cbn [on_slice limit_ops].
+      destruct (Z.eqb_spec L 0) as [->|_]; [lia|].
+      destruct (Z.leb_spec L s) as [H1|H1].
+      + cbn [app]. replace s with L by lia. rewrite wrap_limit_done by exact HL.
+        replace (Z.to_nat (L - L)) with O by lia. reflexivity.
+      + destruct (Z.ltb_spec (s + Z.of_nat (List.length b)) L) as [H2|H2]; cbn [app List.concat].
+        * rewrite IH by lia. rewrite firstn_app, (firstn_all2 b) by lia. f_equal. f_equal. lia.
+        * rewrite wrap_limit_done by exact HL. rewrite app_nil_r, firstn_app.
+          replace (Z.to_nat (L - s) - List.length b)%nat with O by lia. cbn [firstn]. now rewrite app_nil_r.
+  Qed.
+
+  (* ---------- stages that only send at the end of the input (the aggregators) ---------- *)
+  Lemma fold_entries_app {S} (o : ops V S) : forall a b s,
+    fold_entries V o s (a ++ b) =
+    match fold_entries V o s a with
+    | Fail k => Fail k
+    | Ok (s1, a1) => match fold_entries V o s1 b with Fail k => Fail k | Ok (s2, b1) => Ok (s2, a1 ++ b1) end
+    end.
+  Proof.
+    induction a as [|e r IH]; intros b s; cbn [fold_entries app].
+    - destruct (fold_entries V o s b) as [[s2 b1]|k]; reflexivity.
+    - destruct (on_entry V S o s e) as [[s1 e1]|k]; [|reflexivity]. rewrite IH.
+      destruct (fold_entries V o s1 r) as [[s2 r2]|k]; [|reflexivity].
+      destruct (fold_entries V o s2 b) as [[s3 b3]|k]; reflexivity.
+  Qed.
+
+  Lemma wrap_end_only {S} (o : ops V S) :
+    (forall s b, on_slice V S o s b = Ok (s, [])) ->
+    forall bs s, wrap o s bs = wrap o s [List.concat bs].
+  Proof.
+    intros Hs. induction bs as [|b r IH]; intros s.
+    - cbn [wrap List.concat fold_entries]. rewrite Hs. reflexivity.
+    - cbn [List.concat]. cbn [wrap]. rewrite fold_entries_app.
+      destruct (fold_entries V o s b) as [[s1 b1]|k]; [|reflexivity].
+      rewrite Hs. cbn [app]. rewrite IH. cbn [wrap].
+      destruct (fold_entries V o s1 (List.concat r)) as [[s2 r2]|k]; [|reflexivity].
+      rewrite !Hs. reflexivity.
+  Qed.
+
+  (* ---------- the rewriting stages that never fail ---------- *)
+  Definition unwrap_g (label : string) (e : entry) : entry :=
+    match unwrap_f V pfloat label e with Ok e' => e' | Fail _ => e end.
+  Lemma unwrap_total label e : unwrap_f V pfloat label e = Ok (unwrap_g label e).
+  Proof.
+    unfold unwrap_g, unwrap_f. destruct (negb _); [reflexivity|].
+    destruct (String.eqb _ EmptyString); [reflexivity|]. destruct (pfloat _); reflexivity.
+  Qed.
+  Definition drop_g (names vals : list string) (e : entry) : entry :=
+    match drop_f V fpf names vals e with Ok e' => e' | Fail _ => e end.
+  Lemma drop_total names vals e : drop_f V fpf names vals e = Ok (drop_g names vals e).
+  Proof. unfold drop_g, drop_f. destruct (e_lbl V e); [|reflexivity]. destruct (Nat.eqb _ _); reflexivity. Qed.
+  Definition by_without_g (by_ : bool) (names : list string) (e : entry) : entry :=
+    match by_without_f V fpf by_ names e with Ok e' => e' | Fail _ => e end.
+  Lemma by_without_total by_ names e : by_without_f V fpf by_ names e = Ok (by_without_g by_ names e).
+  Proof. unfold by_without_g, by_without_f. destruct (e_lbl V e); reflexivity. Qed.
+  Definition label_format_g (fs : list lfmt_op) (e : entry) : entry :=
+    match label_format_f V fs e with Ok e' => e' | Fail _ => e end.
+  Lemma label_format_total fs e : label_format_f V fs e = Ok (label_format_g fs e).
+  Proof. unfold label_format_g, label_format_f. destruct (e_lbl V e); reflexivity. Qed.
+
+  (* ---------- response optimizer: a regrouping by fingerprint ---------- *)
+  Definition proj (f : N) (l : list entry) : list entry := filter (fun e => N.eqb (e_fp V e) f) l.
+  Definition gflat (g : groups V) : list entry := List.concat (map snd g).
+
+  Fixpoint gwf (g : groups V) : Prop :=
+    match g with
+    | [] => True
+    | (k, es) :: r => (forall e, In e es -> e_fp V e = k) /\ (forall k' es', In (k', es') r -> (k < k')%N) /\ gwf r
+    end.
+
+  Lemma proj_app f a b : proj f (a ++ b) = proj f a ++ proj f b.
+  Proof. apply filter_app. Qed.
+
+  Lemma proj_none f l : (forall e, In e l -> e_fp V e <> f) -> proj f l = [].
+  Proof.
+    induction l as [|e r IH]; intros H; cbn; [reflexivity|].
+    destruct (N.eqb_spec (e_fp V e) f) as [E|_]; [exfalso; apply (H e); [now left|exact E]|].
+    apply IH. intros x Hx. apply H. now right.
+  Qed.
+
+  Lemma gflat_later_none f k g : gwf g -> (forall k' es', In (k', es') g -> (k < k')%N) -> (f <= k)%N -> proj f (gflat g) = [].
+  Proof.
+    induction g as [|[k1 es] r IH]; intros Hwf Hlt Hle; [reflexivity|].
+    unfold gflat. cbn [map snd List.concat]. rewrite proj_app. destruct Hwf as [H1 [H2 H3]].
+    rewrite (proj_none f es).
+    - cbn [app]. apply IH; [exact H3| |exact Hle]. intros k' es' Hin. apply (Hlt k' es'). now right.
+    - intros e He. rewrite (H1 e He). specialize (Hlt k1 es (or_introl eq_refl)). lia.
+  Qed.
+
+  Lemma group_add_spec e : forall g, gwf g ->
+    gwf (group_add V g e) /\
+    (forall k es, In (k, es) (group_add V g e) -> k = e_fp V e \/ exists es0, In (k, es0) g) /\
+    forall f, proj f (gflat (group_add V g e)) = proj f (gflat g) ++ proj f [e].
+  Proof.
+    induction g as [|[k es] r IH]; intros Hwf.
+    - cbn [group_add]. split; [|split].
+      + cbn. split; [intros x [<-|[]]; reflexivity|]. split; [intros ? ? []|exact I].
+      + intros k es [H|[]]. left. now inversion H.
+      + intros f. unfold gflat. cbn. rewrite ?app_nil_r. reflexivity.
+    - destruct Hwf as [H1 [H2 H3]]. cbn [group_add].
+      destruct (N.compare_spec (e_fp V e) k) as [E|L|G].
+      + split; [|split].
+        * cbn [gwf]. split; [|split; assumption].
+          intros x Hx. apply in_app_or in Hx. destruct Hx as [Hx|[<-|[]]]; [now apply H1|exact E].
+        * intros k' es' [H|H]; [right; exists es; left; inversion H; reflexivity|right; exists es'; now right].
+        * intros f. unfold gflat. cbn [map snd List.concat]. rewrite !proj_app. rewrite <- !app_assoc. f_equal.
+          fold (gflat r).
+          destruct (N.eqb_spec (e_fp V e) f) as [Ef|Nf].
+          { rewrite (gflat_later_none f k r H3 H2) by lia. cbn [proj filter app]. rewrite (proj2 (N.eqb_eq _ _) Ef). reflexivity. }
+          { cbn [proj filter]. rewrite (proj2 (N.eqb_neq _ _) Nf). cbn [app]. now rewrite app_nil_r. }
+      + split; [|split].
+        * cbn [gwf]. split; [intros x [<-|[]]; reflexivity|]. split; [|cbn [gwf]; auto].
+          intros k' es' [H|H]; [inversion H; subst; exact L|]. specialize (H2 k' es' H). lia.
+        * intros k' es' [H|H]; [left; now inversion H|right; exists es'; exact H].
+        * intros f. unfold gflat. cbn [map snd List.concat app].
+          destruct (N.eqb_spec (e_fp V e) f) as [Ef|Nf].
+          { assert (Hz : proj f (es ++ gflat r) = []).
+            { change (es ++ gflat r) with (gflat ((k, es) :: r)).
+              apply (gflat_later_none f (e_fp V e)); [cbn [gwf]; auto| |lia].
+              intros k' es' [H|H]; [inversion H; subst; exact L|]. specialize (H2 k' es' H). lia. }
+            fold (gflat r). rewrite Hz. change (e :: es ++ gflat r) with ([e] ++ (es ++ gflat r)).
+            rewrite proj_app, Hz. cbn [app]. now rewrite app_nil_r. }
+          { fold (gflat r). change (e :: es ++ gflat r) with ([e] ++ (es ++ gflat r)). rewrite (proj_app f [e]).
+            cbn [proj filter]. rewrite (proj2 (N.eqb_neq _ _) Nf). cbn [app]. now rewrite app_nil_r. }
+      + destruct (IH H3) as [I1 [I2 I3]]. split; [|split].
+        * cbn [gwf]. split; [exact H1|]. split; [|exact I1].
+          intros k' es' Hin. destruct (I2 k' es' Hin) as [->|[es0 H0]]; [exact G|exact (H2 k' es0 H0)].
+        * intros k' es' [H|H]; [right; exists es; left; now inversion H|].
+          destruct (I2 k' es' H) as [->|[es0 H0]]; [now left|right; exists es0; now right].
+        * intros f. unfold gflat. cbn [map snd List.concat]. rewrite !proj_app.
+          change (List.concat (map snd (group_add V r e))) with (gflat (group_add V r e)).
+          rewrite I3. unfold gflat. now rewrite app_assoc.
+  Qed.
+
+  Lemma gflat_add_len e : forall g, List.length (gflat (group_add V g e)) = S (List.length (gflat g)).
+  Proof.
+    induction g as [|[k es] r IHg]; [reflexivity|]. cbn [group_add].
+    destruct (N.compare (e_fp V e) k); unfold gflat in *; cbn [map snd List.concat].
+    - rewrite !app_length. cbn [List.length]. lia.
+    - cbn [app List.length]. reflexivity.
+    - rewrite !app_length, IHg. lia.
+  Qed.
+
+  Lemma fold_optimizer : forall b g n, gwf g ->
+    exists g', fold_entries V (optimizer_ops V) (g, n) b = Ok ((g', n + Z.of_nat (List.length b)), b) /\ gwf g' /\
+               List.length (gflat g') = (List.length (gflat g) + List.length b)%nat /\
+               forall f, proj f (gflat g') = proj f (gflat g) ++ proj f b.
+  Proof.
+    induction b as [|e r IH]; intros g n Hwf.
+    - exists g. cbn [fold_entries List.length]. split; [now rewrite Z.add_0_r|]. split; [exact Hwf|]. split; [lia|].
+      intros f. now rewrite app_nil_r.
+    - cbn [fold_entries]. cbn [on_entry optimizer_ops fst snd].
+      destruct (group_add_spec e g Hwf) as [W1 [_ W3]].
+      destruct (IH (group_add V g e) (n + 1) W1) as [g' [Hf [W' [L' P']]]].
+      exists g'. rewrite Hf. split; [|split; [exact W'|split]].
+      + do 3 f_equal. cbn [List.length]. lia.
+      + rewrite L', gflat_add_len. cbn [List.length]. lia.
+      + intros f. rewrite P', W3. rewrite <- app_assoc, <- proj_app. reflexivity.
+  Qed.
+
+  Lemma wrap_optimizer f : forall bs g n, gwf g -> n = Z.of_nat (List.length (gflat g)) ->
+    proj f (List.concat (wrap (optimizer_ops V) (g, n) bs)) = proj f (gflat g) ++ proj f (List.concat bs).
+  Proof.
+    induction bs as [|b r IH]; intros g n Hwf Hn; cbn [wrap List.concat].
+    - cbn [on_end optimizer_ops snd fst]. rewrite app_nil_r.
+      destruct (Z.eqb_spec n 0) as [E|_]; [|reflexivity].
+      assert (Hl : gflat g = []) by (apply length_zero_iff_nil; lia). now rewrite Hl.
+    - destruct (fold_optimizer b g n Hwf) as [g' [Hf [W' [L' P']]]]. rewrite Hf.
+      cbn [on_slice optimizer_ops snd fst].
+      assert (Hn' : n + Z.of_nat (List.length b) = Z.of_nat (List.length (gflat g'))) by (rewrite L'; lia).
+      destruct (Z.ltb_spec (n + Z.of_nat (List.length b)) 3000) as [Hs|Hs].
+      + cbn [app]. rewrite (IH g' _ W' Hn'). rewrite P', proj_app. now rewrite app_assoc.
+      + rewrite concat_app, proj_app. change (List.concat (map snd g')) with (gflat g').
+        match goal with |- _ ++ proj f (List.concat ?w) = _ => change w with (wrap (optimizer_ops V) (@pair (groups V) Z [] 0) r) end.
+        rewrite (IH [] 0 I eq_refl). unfold gflat at 2. cbn [map List.concat proj filter app].
+        rewrite P', proj_app. now rewrite app_assoc.
+  Qed.
+
+  (* ---------- observations depend on the flat output only ---------- *)
+  Notation run_stage := (run_stage V v0 v1 vadd vdiv vltb vleb veqb vofZ panic_kills fpf re_match pfloat parse tmpl).
+  Notation observe := (observe V).
+  Notation outcome_of := (outcome_of V).
+  Definition is_crash (e : entry) : bool := errk_eqb (e_err V e) ECrash.
+
+  Lemma has_crash_concat (bs : batches) : has_crash V bs = existsb is_crash (List.concat bs).
+  Proof.
+    unfold has_crash. induction bs as [|b r IH]; cbn [existsb List.concat]; [reflexivity|].
+    now rewrite existsb_app, IH.
+  Qed.
+
+  Lemma observe_concat (a b : batches) : List.concat a = List.concat b -> observe a = observe b.
+  Proof. intros H. unfold InternalEngine.observe. now rewrite !has_crash_concat, H. Qed.
+
+  Lemma outcome_concat (a b : batches) : List.concat a = List.concat b -> outcome_of a = outcome_of b.
+  Proof. intros H. unfold InternalEngine.outcome_of. now rewrite (observe_concat a b H). Qed.
+
+  (* ---------- parser: outcome is independent of the batching ---------- *)
+  Lemma parser_f_err id e e' : parser_f V fpf parse id e = Ok e' -> e_err V e' = e_err V e.
+  Proof.
+    unfold parser_f. destruct (negb _); [intros H; now inversion H|].
+    destruct (parse id _) as [kvs|]; [|discriminate].
+    destruct (e_lbl V e) as [m|]; [intros H; now inversion H|].
+    destruct kvs; [intros H; now inversion H|discriminate].
+  Qed.
+  Lemma parser_f_fail id e k : parser_f V fpf parse id e = Fail k -> k = EErr \/ k = ECrash.
+  Proof.
+    unfold parser_f. destruct (negb _); [discriminate|].
+    destruct (parse id _) as [kvs|]; [|intros H; inversion H; now left].
+    destruct (e_lbl V e) as [m|]; [discriminate|]. destruct kvs; [discriminate|intros H; inversion H; now right].
+  Qed.
+
+  Lemma mapM_no_crash (f : entry -> res entry) :
+    (forall e e', f e = Ok e' -> e_err V e' = e_err V e) ->
+    forall a a', mapM f a = Ok a' -> existsb is_crash a = false -> existsb is_crash a' = false.
+  Proof.
+    intros Hf. induction a as [|e r IH]; intros a' H Hc; cbn [mapM] in H.
+    - now inversion H.
+    - destruct (f e) as [e1|] eqn:E; [|discriminate]. destruct (mapM f r) as [r1|] eqn:R; [|discriminate].
+      inversion H; subst. cbn [existsb] in *. apply orb_false_iff in Hc. destruct Hc as [H1 H2].
+      apply orb_false_iff. split; [|now apply IH]. unfold is_crash in *. now rewrite (Hf e e1 E).
+  Qed.
+
+  Lemma first_err_app_err (l : list entry) (x : entry) :
+    (e_err V x = EErr \/ e_err V x = EPanic) -> existsb is_crash l = false ->
+    exists k, first_err V (l ++ [x]) = Some k /\ k <> ECrash.
+  Proof.
+    intros Hx. induction l as [|e r IH]; intros Hc; cbn [app first_err].
+    - destruct Hx as [-> | ->]; eexists; split; try reflexivity; discriminate.
+    - cbn [existsb] in Hc. apply orb_false_iff in Hc. destruct Hc as [H1 H2]. unfold is_crash in H1.
+      destruct (e_err V e); try (exact (IH H2)); try (eexists; split; [reflexivity|discriminate]).
+  Qed.
+
+  Lemma outcome_failed (pre : batches) (x : entry) :
+    (e_err V x = EErr \/ e_err V x = EPanic) -> existsb is_crash (List.concat pre) = false ->
+    outcome_of (pre ++ [[x]]) = OFailed V.
+  Proof.
+    intros Hx Hc. unfold InternalEngine.outcome_of, InternalEngine.observe.
+    rewrite has_crash_concat, concat_app. cbn [List.concat]. rewrite app_nil_r, existsb_app, Hc.
+    cbn [existsb]. unfold is_crash at 1. destruct Hx as [Hx|Hx]; rewrite Hx; cbn [errk_eqb orb];
+      (destruct (first_err_app_err (List.concat pre) x) as [k [Hk Hn]]; [rewrite Hx; auto|exact Hc|]);
+      rewrite Hk; destruct k; try reflexivity; contradiction.
+  Qed.
+
+  Lemma outcome_crashed (pre : batches) (x : entry) : e_err V x = ECrash -> outcome_of (pre ++ [[x]]) = OCrash V.
+  Proof.
+    intros Hx. unfold InternalEngine.outcome_of, InternalEngine.observe.
+    rewrite has_crash_concat, concat_app. cbn [List.concat]. rewrite app_nil_r, existsb_app.
+    cbn [existsb]. unfold is_crash at 2. rewrite Hx. cbn [errk_eqb]. now rewrite !orb_true_r.
+  Qed.
+
+  Lemma map_stage_outcome (f : entry -> res entry) :
+    (forall e e', f e = Ok e' -> e_err V e' = e_err V e) ->
+    (forall e k, f e = Fail k -> k = EErr \/ k = ECrash) ->
+    forall bs, no_crash_in V bs ->
+      outcome_of (wrap (map_ops V f) tt bs) = outcome_of (wrap (map_ops V f) tt [List.concat bs]).
+  Proof.
+    intros Hok Hfail bs Hnc. unfold no_crash_in in Hnc. rewrite has_crash_concat in Hnc.
+    pose proof (wrap_map_shape f bs) as S1. pose proof (wrap_map_shape f [List.concat bs]) as S2.
+    cbn [List.concat] in S2. rewrite app_nil_r in S2.
+    destruct (mapM f (List.concat bs)) as [l'|k] eqn:E.
+    - apply outcome_concat. now rewrite S1, S2.
+    - destruct S1 as [pre1 [W1 [a1 [b1 [C1 M1]]]]]. destruct S2 as [pre2 [W2 [a2 [b2 [C2 M2]]]]].
+      rewrite W1, W2.
+      assert (Hk : k = EErr \/ k = ECrash).
+      { clear - E Hfail. revert k E. induction (List.concat bs) as [|e r IH]; intros k E; cbn [mapM] in E; [discriminate|].
+        destruct (f e) as [e1|k1] eqn:F; [|inversion E; subst; exact (Hfail e k F)].
+        destruct (mapM f r) as [r1|k2]; [discriminate|]. inversion E; subst. now apply IH. }
+      assert (N1 : existsb is_crash (List.concat pre1) = false).
+      { apply (mapM_no_crash f Hok a1 _ M1). rewrite C1, existsb_app in Hnc. now apply orb_false_iff in Hnc. }
+      assert (N2 : existsb is_crash (List.concat pre2) = false).
+      { apply (mapM_no_crash f Hok a2 _ M2). rewrite C2, existsb_app in Hnc. now apply orb_false_iff in Hnc. }
+      unfold fail_entry. destruct Hk as [-> | ->].
+      + rewrite !outcome_failed; auto.
+      + destruct panic_kills.
+        * rewrite !outcome_crashed; auto.
+        * rewrite !outcome_failed; auto.
+  Qed.
 End PROOFS.
+
+(* ============================================================================================ *)
+(* hash.go *)
+From Coq Require Import Permutation.
+Section HASH.
+  Variable ch64 : string -> N.
+  Open Scope N_scope.
+
+  Lemma w64_idem x : w64 (w64 x) = w64 x.
+  Proof. unfold w64. apply N.mod_mod. unfold m64. discriminate. Qed.
+  Lemma w64_add_l a b : w64 (w64 a + b) = w64 (a + b).
+  Proof. unfold w64. apply N.add_mod_idemp_l. unfold m64. discriminate. Qed.
+  Lemma w64_mul_l a b : w64 (w64 a * b) = w64 (a * b).
+  Proof. unfold w64. apply N.mul_mod_idemp_l. unfold m64. discriminate. Qed.
+
+  Lemma fp_step_comm d x y : fp_step ch64 (fp_step ch64 d x) y = fp_step ch64 (fp_step ch64 d y) x.
+  Proof.
+    destruct d as [[a b] c]. unfold fp_step.
+    set (h1 := w64 (ch64 (fst x ++ snd x))). set (h2 := w64 (ch64 (fst y ++ snd y))).
+    f_equal; [f_equal|].
+    - rewrite !w64_add_l. f_equal. lia.
+    - rewrite !N.lxor_assoc. f_equal. apply N.lxor_comm.
+    - rewrite !w64_mul_l. f_equal. lia.
+  Qed.
+
+  Lemma fold_fp_step_perm : forall m1 m2, Permutation m1 m2 -> forall d, fold_left (fp_step ch64) m1 d = fold_left (fp_step ch64) m2 d.
+  Proof.
+    induction 1 as [|x l l' _ IH|x y l|l l' l'' _ IH1 _ IH2]; intros d; cbn [fold_left].
+    - reflexivity.
+    - apply IH.
+    - now rewrite fp_step_comm.
+    - now rewrite IH1, IH2.
+  Qed.
+
+  (* Go ranges over the label map in an unspecified order; the fingerprint does not depend on it *)
+  Lemma fingerprint_perm m1 m2 : Permutation m1 m2 -> fingerprint ch64 m1 = fingerprint ch64 m2.
+  Proof. intros H. unfold fingerprint, fp_descr. now rewrite (fold_fp_step_perm m1 m2 H). Qed.
+
+  (* the only thing the fingerprint reads off a label is the string k ++ v *)
+  Lemma fingerprint_kv m1 m2 :
+    map (fun kv => (fst kv ++ snd kv)%string) m1 = map (fun kv => (fst kv ++ snd kv)%string) m2 ->
+    fingerprint ch64 m1 = fingerprint ch64 m2.
+  Proof.
+    intros H. unfold fingerprint, fp_descr.
+    assert (G : forall d, fold_left (fp_step ch64) m1 d = fold_left (fp_step ch64) m2 d).
+    { revert m2 H. induction m1 as [|x r IH]; intros [|y r2] H d; cbn [map] in H; try discriminate; [reflexivity|].
+      inversion H as [[H1 H2]]. cbn [fold_left].
+      replace (fp_step ch64 d x) with (fp_step ch64 d y).
+      - now apply IH.
+      - destruct d as [[a b] c]. unfold fp_step. now rewrite H1. }
+    now rewrite G.
+  Qed.
+End HASH.
+
+Lemma hash_collision_witness : forall ch64 : string -> N,
+  fingerprint ch64 [("a", "bc")]%string = fingerprint ch64 [("ab", "c")]%string.
+Proof. intros ch64. apply fingerprint_kv. reflexivity. Qed.
